@@ -37,7 +37,7 @@ From RU Require Import Base.Prelude Base.Utf8 Base.Utf8Facts Model.AsciiSet Gen.
   Proofs.C08_Input Proofs.C08_Simple Proofs.C08_Contain Proofs.C08_NoAuth Proofs.C08_Absolute Proofs.C08_Relative Proofs.C08_RelEval
   Proofs.C08_RelPath Proofs.C08_RelJoin Proofs.C08_RelMr Proofs.C08_RelLaw Proofs.C08_RelCanon Proofs.C08_RelNoAuth
   Proofs.C02_AuthParts Proofs.C02_Auth Proofs.C02_AuthSp Proofs.C02_AuthMain Proofs.C08_AbsNonfile Proofs.C08_RelAuth Proofs.C08_RelRecog Proofs.C08_Parsed Proofs.C08_ContainFile
-  Proofs.C02_Hist Proofs.C02_Canon Proofs.C02_SetHostCanon Proofs.C02_Reach5 Proofs.C09_Host Proofs.C02_Reach4 Model.Host Proofs.C08_Reach.
+  Proofs.C02_Hist Proofs.C02_Canon Proofs.C02_SetHostCanon Proofs.C02_Reach5 Proofs.C09_Host Proofs.C02_Reach4 Model.Host Proofs.C08_Reach Proofs.C08_ContainFileFront.
 From RU Require Properties.C02.
 Open Scope N_scope.
 Open Scope list_scope.
@@ -723,6 +723,44 @@ Example C08_inhabited :
   /\ mr_holds "file:///tmp/a" "file:///tmp/b/c/" "b/c/" = true
   /\ mr_holds "http://u:p@h:81/a/f" "http://u:p@h:81/" "../" = true.
 Proof. exact MR_ok_inhabited. Qed.
+
+(* ================= 4b. containment for file bases, strong form outside the drive-letter branches ================= *)
+(* file_shape b (computable): the record has the layout parse_file gives every file URL - "file://" in front,
+   scheme_end 4, no credentials (username_end = host_start = 7), no port, path_start = host_end, and host_end = 7
+   when there is no host.  file_ref_plain b input (computable): the trimmed reference does not start with a
+   Windows-drive-letter segment ("C:" / "C|" followed by '/', '\', '?', '#' or the end), neither at its start nor
+   behind one leading slash, and - for a reference with one leading slash - the first path segment of the base is not
+   a normalized drive letter "C:".  Outside (the drive-letter branches of parse_file) the host may be dropped:
+   C08_1_refuted, covered in the weak form by C08_contain_file. *)
+Theorem C08_contain_file_front : forall dbg hp hpo hd b input u',
+  wf_b b = true -> has_authority_b b = true -> st_is_file (b_st b) = true -> file_shape b = true ->
+  usv_list input -> contain_pre b input = true -> file_ref_plain b input = true ->
+  join dbg hp hpo hd b input = POk u' ->
+  wf_b u' = true /\ same_front dbg b u' /\ same_main b u' /\ agree_pre (path_start b) (ser b) (ser u').
+Proof. exact contain_file_front. Qed.
+Check C08_contain_file_front : forall dbg hp hpo hd b input u',
+  wf_b b = true -> has_authority_b b = true -> st_is_file (b_st b) = true -> file_shape b = true ->
+  usv_list input -> contain_pre b input = true -> file_ref_plain b input = true ->
+  parse_url dbg hp hpo hd None (Some b) input = POk u' ->
+  wf_b u' = true /\ same_front dbg b u'
+  /\ (scheme_end u' = scheme_end b /\ username_end u' = username_end b /\ host_start u' = host_start b
+      /\ host_end u' = host_end b /\ hosti u' = hosti b /\ port u' = port b /\ path_start u' = path_start b)
+  /\ nfirstn (path_start b) (ser u') = nfirstn (path_start b) (ser b).
+Print Assumptions C08_contain_file_front.
+(* non-vacuity: seven (base, reference) pairs inside the premises - relative and one-slash references, '\', dot
+   segments, a tab, bases with and without host, a drive-letter base with a relative reference - with the result;
+   two pairs that meet every premise except file_ref_plain and lose the host *)
+Example C08_contain_file_front_inhabited :
+  file_front_case "file://host/dir/f?q#f" "x/y?z" "file://host/dir/x/y?z" = true
+  /\ file_front_case "file://host/dir/f" "/x/../y" "file://host/y" = true
+  /\ file_front_case "file://host/dir/f" "\x" "file://host/x" = true
+  /\ file_front_case "file://host/dir/f" "../../.." "file://host/" = true
+  /\ file_front_case "file:///dir/f" "/x" "file:///x" = true
+  /\ file_front_case "file:///c:/dir/f" "../../x" "file:///c:/x" = true
+  /\ file_front_case "file://host/dir/f" "	.//x" "file://host/dir//x" = true
+  /\ file_front_excluded "file://host/dir/f" "/c:/x" = true
+  /\ file_front_excluded "file://host/dir/f" "C|" = true.
+Proof. exact contain_file_front_inhabited. Qed.
 
 (* ================= 8. the STANDARD-side reading of the simple references and of containment ================= *)
 (* The Standard = the transcription Spec/Whatwg.v of the basic URL parser (spec_basic_url_parse shp input (Some sb),
